@@ -203,6 +203,8 @@ def run(ctx):
     run_traces(ctx, "c14_rearm", [[ctx.seed * 10 + i, 6000 if ctx.thorough else 700] for i in range(8 if ctx.thorough else 4)], "streamsrc", r"explained-by-StreamP.srcReplay (\d+)", "L-trace stream source", "rearm", timeout=600)
     # the convenience calls with nothing to transfer, freed memory poisoned (F37: a hold taken on a freed descriptor entry)
     run_traces(ctx, "c14_conv0", [[ctx.seed * 10 + i, 4000 if ctx.thorough else 1500] for i in range(4 if ctx.thorough else 2)], None, None, "L-api convenience zero-length", "conv0", timeout=400)
+    # every placement of close / stop relative to an operation in flight (stop after a close that has taken effect included)
+    run_traces(ctx, "c14_stopclose", [[ctx.seed * 10 + i, 150 if ctx.thorough else 50] for i in range(3 if ctx.thorough else 2)], None, None, "L-api close/stop placement", "stopclose", timeout=400)
     # known finding F31: a zero-length operation overtakes an earlier operation of its direction that is still waiting
     forced(ctx, "f31_zero_length_order", "F31", "io:order:zero-length-overtakes:forced-F31", "F31")
     # cleanup orchestration: the recorded history of the descriptor entry's close queue (suspensions / resumptions, handler calls,
